@@ -99,8 +99,18 @@ def accepts(ov, npos, kws, argtypes):
     return all(included(a, p) for a, p in zip(argtypes, receiving(ov, npos, kws)))
 
 
-def reference(ovs, npos, kws, argtypes):
-    """Returns dict(kind, accepted, results) per the documented algorithm."""
+def ret_names(src):
+    """Marker classes named by a return annotation (`NoReturn` names none)."""
+    return frozenset(m for m in members_of(src) if m in RS)
+
+
+def default_rets(n):
+    return RS[:n]
+
+
+def reference(ovs, npos, kws, argtypes, rets=None):
+    """Returns dict(kind, accepted, results) per the documented algorithm; results are return annotations."""
+    RS = rets or default_rets(len(ovs))
     any_idx = [i for i, a in enumerate(argtypes) if a == "Any"]
     union_idx = [i for i, a in enumerate(argtypes) if a != "Any" and len(members_of(a)) > 1]
     if not any_idx and not union_idx:
@@ -114,11 +124,12 @@ def reference(ovs, npos, kws, argtypes):
         for m in members_of(argtypes[i]):
             at = list(argtypes)
             at[i] = m
-            r = reference(ovs, npos, kws, at)
+            r = reference(ovs, npos, kws, at, rets)
             if not r["accepted"]:
                 return {"case": "b", "accepted": False, "results": []}
             results += r["results"]
         return {"case": "b", "accepted": True, "results": sorted(set(results))}
+    # (results of case b are annotations; the judge compares the marker classes they name)
     if len(any_idx) >= 1 and not union_idx:
         # overloads that match when Any arguments are ignored
         matching = []
@@ -159,15 +170,16 @@ HEADER = "from typing import *\nfrom typing_extensions import *\nfrom pv_vocab i
 def judge(items, checker, col=None):
     """items: list of (overload set, [(npos, kws, argtypes)])."""
     lines = HEADER.rstrip("\n").split("\n")
-    for i, (ovs, calls) in enumerate(items):
+    items = [it if len(it) == 3 else (it[0], it[1], None) for it in items]
+    for i, (ovs, calls, rets) in enumerate(items):
         for k, ov in enumerate(ovs):
             lines.append("@overload")
-            lines.append(ov_header(ov, f"f{i}", RS[k]))
+            lines.append(ov_header(ov, f"f{i}", (rets or RS)[k]))
         lines.append(f"def f{i}(*args: Any, **kwargs: Any) -> Any: ...")
     params = ", ".join(f"p_{ident(t)}: {t}" for t in ARG_TYPES)
     lines.append(f"def caller({params}) -> None:")
     lmap = {}
-    for i, (ovs, calls) in enumerate(items):
+    for i, (ovs, calls, rets) in enumerate(items):
         for j, (npos, kws, argtypes) in enumerate(calls):
             args = [f"p_{ident(t)}" for t in argtypes[:npos]] + [f"{k}=p_{ident(t)}" for k, t in zip(kws, argtypes[npos:])]
             lines.append(f"    r{i}_{j} = f{i}({', '.join(args)})")
@@ -188,14 +200,14 @@ def judge(items, checker, col=None):
             inferred[n.lineno] = res.values_of(n.value)
     fails = []
     for line, (i, j) in lmap.items():
-        ovs, calls = items[i]
+        ovs, calls, rets = items[i]
         npos, kws, argtypes = calls[j]
-        ref = reference(ovs, npos, kws, argtypes)
+        ref = reference(ovs, npos, kws, argtypes, rets)
         if ref["case"] == "skip":
             continue
         diagnosed = line in diag
         got = read_inferred(inferred.get(line))
-        desc = "; ".join(ov_header(ov, "f", RS[k]) for k, ov in enumerate(ovs)) + f" called with ({', '.join(argtypes[:npos] + [f'{k}={t}' for k, t in zip(kws, argtypes[npos:])])})"
+        desc = "; ".join(ov_header(ov, "f", (rets or RS)[k]) for k, ov in enumerate(ovs)) + f" called with ({', '.join(argtypes[:npos] + [f'{k}={t}' for k, t in zip(kws, argtypes[npos:])])})"
         binders = [k for k, ov in enumerate(ovs) if ov_binds(ov, npos, kws)]
         first_accepts = bool(binders) and accepts(ovs[binders[0]], npos, kws, argtypes) if ref["case"] == "a" else False
         nontriv = len(binders) >= 2 and not first_accepts
@@ -203,6 +215,8 @@ def judge(items, checker, col=None):
             col.case(nontrivial_id=desc if nontriv else None,
                      label=[f"case:{ref['case']}", "accepted" if ref["accepted"] else "rejected"], sample=desc)
         case = {"ovs": ovs, "npos": npos, "kws": kws, "argtypes": argtypes}
+        if rets:
+            case["rets"] = list(rets)
         if ref["accepted"] == diagnosed:
             kind = "FP" if diagnosed else "FN"
             fails.append((f"{kind}|case-{ref['case']}|{'+'.join(sorted(set(argtypes)))[:40]}",
@@ -212,15 +226,16 @@ def judge(items, checker, col=None):
         if not ref["accepted"] or got is None:
             continue
         if ref["case"] == "a":
-            if got != ("classes", {ref["results"][0]}):
+            if got != ("classes", set(ret_names(ref["results"][0]))):
                 fails.append((f"wrong-overload|expected-{ref['results'][0]}|got-{fmt(got)}",
                               f"{desc}: first matching overload returns {ref['results'][0]} but the inferred type is {fmt(got)}", case))
         elif ref["case"] == "b":
-            if got[0] == "classes" and not set(ref["results"]) <= got[1]:
+            if got[0] == "classes" and not set().union(*[ret_names(r) for r in ref["results"]]) <= got[1]:
                 fails.append((f"union-missing-result|{fmt(got)}",
                               f"{desc}: members resolve to {ref['results']} but the inferred type is {fmt(got)}", case))
         elif ref["case"] == "c":
-            if len(set(ref["results"])) >= 2 and got[0] == "classes" and len(got[1]) == 1:
+            distinct = {ret_names(r) for r in ref["results"]}
+            if len(distinct) >= 2 and got[0] == "classes" and any(got[1] == set(d) for d in distinct):
                 fails.append((f"any-selects-one|{fmt(got)}",
                               f"{desc}: overloads {ref['results']} all match the Any argument but the inferred type is the single {fmt(got)}", case))
     return fails
@@ -256,7 +271,30 @@ def item_strategy(draw):
         npos, kws = shape
         argtypes = [draw(st.sampled_from(ARG_TYPES)) for _ in range(npos + len(kws))]
         calls.append((npos, list(kws), argtypes))
+    if draw(st.integers(0, 2)) == 0:
+        # return annotations that overlap: NoReturn, a union with another overload's marker, another overload's marker
+        rets = []
+        for k in range(len(ovs)):
+            j = draw(st.integers(0, len(ovs) - 1))
+            rets.append(draw(st.sampled_from([RS[k], RS[k], "NoReturn", f"{RS[k]} | {RS[j]}" if j != k else RS[k], RS[j]])))
+        return ovs, calls, rets
     return ovs, calls
+
+
+RET_PAIRS = [("R0", "NoReturn"), ("NoReturn", "R1"), ("R0 | R1", "R1"), ("R0", "R0 | R1"), ("R0", "R0"), ("R0 | R1", "R1 | R0"),
+             ("NoReturn", "NoReturn")]
+
+
+def exhaustive_ret_items(index, of):
+    """All pairs of unary overloads over 8 types x overlapping return annotations (NoReturn, a union containing
+    the other's return, equal returns) x every argument type."""
+    small = ["int", "bool", "str", "float", "None", "object", "A", "B"]
+    k = 0
+    for t1, t2 in itertools.product(small, repeat=2):
+        for rets in RET_PAIRS:
+            if k % of == index:
+                yield [[("x", "pk", t1, False)], [("x", "pk", t2, False)]], [(1, [], [a]) for a in ARG_TYPES], list(rets)
+            k += 1
 
 
 def exhaustive_items(index, of):
@@ -294,6 +332,7 @@ def shards(tier, seed):
     n = 16
     out = [{"mode": "exhaustive", "index": i, "of": n} for i in range(n)]
     out += [{"mode": "exhaustive-binary", "index": i, "of": 8} for i in range(8)]
+    out += [{"mode": "exhaustive-rets", "index": i, "of": 4} for i in range(4)]
     out += [{"mode": "random", "index": i, "modules": 6 if tier == "quick" else 300} for i in range(n)]
     return out
 
@@ -301,9 +340,9 @@ def shards(tier, seed):
 def run_shard(spec):
     col = runner.Collector(spec)
     checker = sut.new_checker()
-    if spec["mode"] in ("exhaustive", "exhaustive-binary"):
+    if spec["mode"] in ("exhaustive", "exhaustive-binary", "exhaustive-rets"):
         batch = []
-        gen = exhaustive_items if spec["mode"] == "exhaustive" else exhaustive_binary_items
+        gen = {"exhaustive": exhaustive_items, "exhaustive-binary": exhaustive_binary_items, "exhaustive-rets": exhaustive_ret_items}[spec["mode"]]
         for item in gen(spec["index"], spec["of"]):
             batch.append(item)
             if len(batch) == 12:
@@ -317,7 +356,8 @@ def run_shard(spec):
                 col.fail(key, what, case)
         col.extra["exhaustive"] = not col.budget_hit
         col.extra["exhaustive_bounds"] = ["all pairs of unary overloads over the 12-type vocabulary and all triples over 8 types, x 19 argument types",
-                                          "all pairs of two-parameter overloads (second parameter pk/ko, with/without default) x 3 call shapes x {int, str, Any, int | str}"]
+                                          "all pairs of two-parameter overloads (second parameter pk/ko, with/without default) x 3 call shapes x {int, str, Any, int | str}",
+                                          "all pairs of unary overloads over 8 types x 7 overlapping return-annotation pairs (NoReturn, containing unions, equal) x 19 argument types"]
         return col.result()
     seed = runner.mix_seed(spec["seed"], ID, spec["name"])
 
@@ -341,7 +381,7 @@ def run_shard(spec):
 
 def replay_all(case):
     ovs = [[tuple(p) for p in ov] for ov in case["ovs"]]
-    fails = judge([(ovs, [(case["npos"], list(case["kws"]), list(case["argtypes"]))])], sut.new_checker())
+    fails = judge([(ovs, [(case["npos"], list(case["kws"]), list(case["argtypes"]))], case.get("rets"))], sut.new_checker())
     return [{"key": k, "what": w, "case": case} for k, w, _ in fails]
 
 
